@@ -28,6 +28,9 @@ MISS = {
  "C12_m2": "outside reach: multi-precision float decomposition loop (f64 %, / by 2^64) -- floating-point entry points are not applicable (measured OOM, see incrate/ckks_encoder_v.rs)",
  "C12_m3": "outside reach: coefficient-list entry point; a harness with concrete values and a symbolic stale destination exhausted 40 GB (powi/log2/ceil/round through CBMC's libm models)",
  "C14_m1": "outside reach: deserializing EncryptionParameters calls Modulus::new -> is_prime -> thread_rng, which kani-compiler cannot compile; parameter serialization is listed as not decided for C14",
+ "C16_m3": "outside reach: lives in key generation (fresh entropy per key component); needs the BLAKE-based PRNG and the RLWE sampling glue inside CBMC -- freshness across draws is listed as not decided for C16",
+ "C18_m1": "outside reach: the smudging noise of the key-switching protocol is sampled from the PRNG (CKKS branch); the randomised protocols are listed as not decided for C18",
+ "C19_m3": "not decided: pack_lwe_ciphertexts runs field traces with key switching over log2(N) Galois keys; trace / pack are listed as not decided for C19",
  "C01_m2": "not decided: public-key encryption at a lower level needs the RLWE sampling glue (PRNG + samplers) inside CBMC; listed as outside for C01",
 }
 rows = []
